@@ -168,6 +168,31 @@ func runC16(c *Ctx) {
 			}
 		}
 		r.Check(ok, "R16.1", "runReader stream-request hook guard", c.Pos(rd.Pos()), "hook called only when the module exists", "onEventFrame is called without testing that the stream-request module exists")
+		// … and whenever it exists: every condition that guards the hook is the outcome of the read or the existence of
+		// the module (which frames trigger requests is decided inside onEventFrame — R16.3 — not by the caller)
+		var extra []string
+		reads := callsNamed(rd, "(frame.Reader).Read")
+		for _, ci := range callsNamed(rd, "(gomavlib.nodeStreamRequest).onEventFrame") {
+			for _, iff := range ifsIn(rd) {
+				for idx := 0; idx < 2; idx++ {
+					if iff.Block().Succs[0] == iff.Block().Succs[1] || !edgeMustPass(rd, edge{iff.Block(), iff.Block().Succs[idx]}, ci.Block()) {
+						continue
+					}
+					cs := ex(iff.Cond)
+					okGuard := strings.Contains(cs, ".nodeStreamRequest")
+					for _, rdc := range reads {
+						if strings.Contains(cs, ex(rdc.(*ssa.Call))+"#1") {
+							okGuard = true // the read's own error result
+						}
+					}
+					if !okGuard {
+						extra = append(extra, cs+" ("+c.Pos(iff.Pos())+")")
+					}
+				}
+			}
+		}
+		r.Check(len(extra) == 0, "R16.1", "runReader stream-request hook reachability", c.Pos(rd.Pos()), "every frame read reaches the hook when the module exists",
+			"the stream-request hook is additionally guarded by "+strings.Join(extra, ", ")+": heartbeats of some senders never reach the module, which the property does not allow to depend on anything but (id 0, ArduPilot, 30 s)")
 	}
 
 	// R16.2
